@@ -47,6 +47,11 @@ CLAIMED = {
         "One actor runs open-for-write/write/(close|abort|interrupted with-block) on the real _GitFile in a real directory while a protocol-abiding other locker may acquire/commit/abort before up to 2 of the actor's system calls and one system call may fail with EIO, all at symbolic positions: the actor never renames or removes a lock it does not own, owns the lock after a successful open, leaves complete old or complete new content visible to readers at every point, releases its lock on every ending, and a failed or aborted write leaves the old content. By assume/guarantee induction this gives mutual exclusion for any number of protocol-abiding writers within the bound. Two genuine defects found by this check were repaired (fix: 91eebc4, 8e3e18a). Callers of the protocol (index, refs, config writers) under fault injection are not covered by this check yet.",
         "Trusted: z3 (forking only), ksym, POSIX semantics of O_EXCL/rename/unlink as provided by the kernel on /dev/shm; other writers follow the protocol.",
     ),
+    "C09": (
+        "bounded symbolic exploration of crash points over the real repository code (ksym + file-system interposition): crash index and per-file data-loss bits are solver-forked variables; the image is checked by dulwich's own reader",
+        "For 13 repository-changing operations (loose object, conditional ref update/create/delete, pack_refs, symbolic ref, index write, config write, commit through the work-tree API, add_objects as a pack, pack_loose_objects, repack, gc with pruning) from a loose and a packed starting repository, and a crash immediately before any of the first 60 file-system calls at a symbolic index: the directory image reopens, every ref holds its old or new value and names a present object that re-hashes to its name, every previously reachable object is byte-identical, index and config parse. Same under the power-loss model with core.fsyncObjectFiles on, where each file written by the operation keeps only its last-fsynced content (symbolic per file). One genuine defect found by this check was repaired (fix: b3ae6a7).",
+        "Trusted: z3 (forking), ksym, the kernel's file-system semantics on /dev/shm; the image is a recursive copy taken at the crash instant; durability model = content at last fsync of the file (directory-entry durability not modelled).",
+    ),
     "C11": (
         "bounded symbolic execution of the real index (de)serialisation kernels (ksym) against each other and against reference models of git's varint.c and on-disk entry layout",
         "For every value below 2^63 the v4 varint round-trips and is byte-identical to git's varint.c; path compression round-trips (memory and stream decoders) for every pair of paths of up to 3 bytes and for 127..300-byte previous paths; write_cache_entry->read_cache_entry returns every field for versions 2,3,4 with all stat fields, stage/assume-valid and skip-worktree/intent-to-add bits symbolic, names of 1..9 symbolic bytes (all padding classes) and of 0xFFE..0x1001 bytes, with git's layout (saturating 12-bit length, 1..8 NUL padding); index_entry_from_stat->write never fails for any 64-bit stat value and stores it modulo 2^32. Three genuine defects found by this check were repaired. Ordering of entries, extensions and the SHA trailer are not covered by this check yet.",
